@@ -431,7 +431,13 @@ def finish(ctx, proofs, res, feats, alph, nval, nrep):
     ctx.assumptions += ASSUMPTIONS
 
 
-OPEN_STATEMENTS = []
+OPEN_STATEMENTS = [
+    "order irrelevance of the HashMap/HashSet iterations is by construction (lists used as sets, every output canonicalised by "
+    "Model.Taint.canon) and observed by the correspondence; a theorem `Permutation l l' -> canon l = canon l'` is not stated",
+    "SSA correctness of the cfg w.r.t. the source program (property C14) is not part of C09_noninterference: the theorem speaks "
+    "about executions of the SSA cfg; the source-level oracle covers the gap by search (this is how D20 was visible)",
+    "`ment_sound` is a hypothesis; that the exact predicate (`ment s = true <-> mentions g s`) is decidable is not proved",
+]
 ASSUMPTIONS = [
     "get_true_branch / get_false_branch (dominance-frontier intervals) are an input of the model, dumped from the real Cfg for every "
     "branch block; their exactness is property C15's; the non-interference theorem does not depend on them (conditions are sinks)",
